@@ -127,7 +127,7 @@ fn run(ctx: &Ctx, rep: &Report) {
         }
     };
     let exe = std::env::current_exe().unwrap();
-    let n: u64 = ctx.tier.pick(40, 800);
+    let n: u64 = ctx.tier.pick(40, 3000);
     let reps_in = ctx.tier.pick(5, 6);
     let reps_proc = ctx.tier.pick(3, 4);
     let base = ctx.work_dir("builds");
